@@ -77,6 +77,16 @@ def common_spec(rng, tier, controls=True, limits=False):
         elif not (t['min_level'] + 0.25 * span <= t['init_level'] <= t['max_level'] - 0.25 * span):
             t['init_level'] = gnet._round(t['min_level'] + rng.uniform(0.35, 0.65) * span, 3)
     o = spec['options']
+    o['pattern_interpolation'] = False      # a WNTRSimulator-only option, not a common feature
+    # side stream (content-seeded, the main stream stays what it was): start clock times in the noon and midnight hours, and
+    # controls / rules on the time of day that the run passes
+    import json as _json
+    import random as _random
+    import zlib as _zlib
+    side = _random.Random(_zlib.crc32(_json.dumps(spec, sort_keys=True, default=str).encode()))
+    if side.random() < 0.2:
+        o['start_clocktime'] = side.choice([12 * 3600, 12 * 3600 + 1800, 12 * 3600 + 3599, 1800, 59, 11 * 3600 + 3540, 23 * 3600 + 3599,
+                                            60 * side.randrange(0, 1440)])
     if o['demand_model'] == 'PDD':
         o['minimum_pressure'] = rng.choice([0.0, 2.0, 5.0])
         o['required_pressure'] = o['minimum_pressure'] + rng.choice([10.0, 15.0, 25.0])
@@ -91,6 +101,8 @@ def common_spec(rng, tier, controls=True, limits=False):
         # rules that set a valve setting in THEN and ELSE: every clause has its own unit conversion in the INP writer and its own
         # hidden "activate the valve" companion in the simulator
         ctrlgen.add_random_controls(spec, rng, n=(1, 1), kinds=('rule_setting',), offgrid=0.3)
+    if controls and side.random() < (0.6 if o['start_clocktime'] else 0.2):
+        ctrlgen.add_random_controls(spec, side, n=(1, 2), kinds=('clock', 'rule_clock', 'rule_clock'), offgrid=0.3)
     # closing a bridge cuts junctions off from every source: EPANET then reports 'disconnected' heads of -1e6 while WNTR zeroes
     # them (not a common feature).  Closed pipes and control targets are therefore taken from links that lie on a loop.
     import networkx as nx
